@@ -30,6 +30,17 @@ CHECKS = {
         note="bounds: history length 3 (quick) / 4 (thorough) over the alphabets printed in the evidence; match_depth=False "
              "and `visible` not explored. " + TRUST,
         design="2/C18"),
+    "C04": dict(
+        category="exploration", engine="E1",
+        technique="exhaustive enumeration of all strings up to length L over a computed adversarial alphabet x all dialects x kinds x options; tokenizer round-trip oracle",
+        text="Every string of length <= 3 (thorough 4) over the 29-atom alphabet computed from all dialects' tokenizers (every quote, "
+             "identifier delimiter, escape character, escaped-sequence character, comment marker, control characters, the generator's "
+             "line-break sentinel, the sqlglot.meta marker) is placed in a string literal and a quoted identifier in all 34 dialects, and "
+             "(length <= 2, thorough 3) embedded in a SELECT, attached as a comment at three positions, and rendered as raw / national "
+             "string, under default / pretty / identify options. The generated SQL is tokenized by the same dialect: exactly one payload "
+             "token with identical text, unchanged surrounding token types, comments never change other tokens.",
+        note="single-token rendering is required; UnsupportedError counts as declared-unsupported. " + TRUST,
+        design="2/C04"),
     "C06": dict(
         category="model_checking", engine="E1",
         technique="exhaustive enumeration of expressions (states) x every observed rewrite step (transitions), truth-table equality under every assignment as invariant; evaluator cross-validated against DuckDB",
